@@ -201,6 +201,51 @@ def gen_case(rnd, moduli, bitlengths=(5, 6)):
     return dict(cfg=cfg, prog=prog, ins=ins, arrays=sorted(cx.arrays))
 
 
+def fixed_cases(p=None):
+    """hand-written block programs for corners the random generator reaches rarely: a checked for loop (checkstopmax=True) whose
+    secret bound is beyond the maximum or negative inside a branch that is not taken; public (plain int) conditions in _breakif and
+    _elif next to secret ones; floor division / modulo by constants in branches not taken and in loop iterations past the bound"""
+    import progs
+    p = p or progs.BN
+    out = []
+    def case(prog, ins, tag):
+        pr = [["input", 0, "priv", 0], ["input", 1, "priv", 1], ["input", 2, "priv", 2], ["constval", 10, 7], ["bset", 0, 10], ["constval", 11, 1], ["bset", 1, 11]]
+        pr += prog + [["bget", 90, 0], ["bget", 91, 1]]
+        out.append(dict(cfg=dict(p=p, n=6, res=2, ign=0), prog=pr, ins=ins, arrays=[], fixed=tag))
+    acc = lambda i, t, u: [["bget", t, 0], ["bin", u, "add", t, i], ["bset", 0, u]]
+    cond = [["const", 20, ["int", 1]], ["bin", 21, "eq", 0, 20]]                       # input 0 == 1
+    # (1) checked for loop in a branch that is not taken / in the else of a taken branch / nested in an inactive loop iteration
+    loop = ["ofor", 30, 0, 1, 3, 1, acc(30, 31, 32)]
+    for ins in ([0, 5, 0], [0, 45, 0], [0, -1, 0], [1, 2, 0], [1, 3, 0]):
+        case(cond + [["oif", 21, [loop], [], None]], ins, "checked-for-in-if")
+    for ins in ([1, 5, 0], [1, -2, 0], [0, 2, 0]):
+        case(cond + [["oif", 21, [["bset", 1, 20]], [], [loop]]], ins, "checked-for-in-else")
+    for ins in ([1, 5, 0], [3, 9, 0], [0, 2, 2], [0, -3, 0]):
+        case(cond + [["ofor", 40, 0, 2, 3, 0, [["ofor", 30, 0, 1, 3, 1, acc(30, 31, 32)]]]], ins, "checked-for-in-inactive-iteration")
+    # (2) public conditions: _breakif on a plain int / on a comparison of the public loop index; _elif with a public condition
+    for k in (0, 1):
+        for ins in ([3, 0, 0], [1, 0, 0], [0, 0, 0]):
+            wh = ["owhile", [["bget", 50, 1], ["const", 51, ["int", 0]], ["bin", 52, "gt", 0, 51]], 52, 3,
+                  acc(20, 53, 54) + [["const", 55, ["int", k]], ["breakif", 55]]]
+            case(cond + [wh], ins, "breakif-public-int")
+    for kk in (0, 1, 2):
+        for ins in ([3, 3, 0], [1, 2, 0], [0, 4, 0]):
+            fl = ["ofor", 60, 0, 1, 4, 0, [["const", 61, ["int", kk]], ["bin", 62, "eq", 60, 61], ["breakif", 62]] + acc(60, 63, 64)]
+            case(cond + [fl], ins, "breakif-public-index-comparison")
+    for k in (0, 1):
+        for ins in ([0, 0, 0], [1, 0, 0]):
+            chain = ["oif", 21, [["bset", 0, 20]], [[[["const", 70, ["int", k]]], 70, [["constval", 71, 20], ["bset", 0, 71]]]], [["constval", 72, 30], ["bset", 0, 72]]]
+            case(cond + [chain], ins, "elif-public-int")
+    # (3) // and % by constants where the region is not taken
+    for op in ("floordiv", "mod"):
+        for ins in ([0, 7, 0], [1, 7, 0], [0, -7, 0]):
+            dv = [["const", 80, ["int", 3]], ["bin", 81, op, 1, 80], ["bset", 0, 81]]
+            case(cond + [["oif", 21, dv, [], None]], ins, "const-%s-in-if" % op)
+            case(cond + [["oif", 21, [["bset", 1, 20]], [], dv]], ins, "const-%s-in-else" % op)
+            case(cond + [["ofor", 82, 0, 0, 3, 0, dv]], ins, "const-%s-in-for" % op)
+    return out
+
+
 # ------------------------------------------------------------------ native twin
 
 class Break(Exception):
@@ -226,7 +271,8 @@ def twin(case, cap_for=True):
             elif op == "bin":
                 a, b = regs[s[3]], regs[s[4]]
                 regs[s[1]] = {"add": lambda: a + b, "sub": lambda: a - b, "mul": lambda: a * b, "lt": lambda: int(a < b), "le": lambda: int(a <= b),
-                              "eq": lambda: int(a == b), "ne": lambda: int(a != b), "gt": lambda: int(a > b), "ge": lambda: int(a >= b)}[s[2]]()
+                              "eq": lambda: int(a == b), "ne": lambda: int(a != b), "gt": lambda: int(a > b), "ge": lambda: int(a >= b),
+                              "floordiv": lambda: a // b, "mod": lambda: a % b}[s[2]]()
             elif op == "bset":
                 x = regs[s[2]]
                 vals[s[1]] = ([list(r_) if isinstance(r_, list) else r_ for r_ in x] if isinstance(x, list) and s[1] in case.get("arrays", ()) else x)
